@@ -6,6 +6,7 @@ import (
 	"encoding/base64"
 	"encoding/binary"
 	"encoding/hex"
+	"encoding/json"
 	"fmt"
 	"io"
 	"math"
@@ -570,7 +571,7 @@ func compareDecoded(dec, ref *jsonstrict.Node, path string) error {
 		// the same float32
 		ga, e3 := strconv.ParseFloat(dec.Str, 32)
 		gb, e4 := strconv.ParseFloat(ref.Str, 32)
-		if e3 == nil && e4 == nil && float32(ga) == float32(gb) {
+		if e3 == nil && e4 == nil && float32(ga) == float32(gb) && isFloat32Text(ref.Str, float32(gb)) {
 			return nil
 		}
 		return fmt.Errorf("%s: decoded number %s, JSON build %s", path, dec.Str, ref.Str)
@@ -748,4 +749,17 @@ func nodeToExp(n *jsonstrict.Node) seqx.Exp {
 		return e
 	}
 	return seqx.Any()
+}
+
+// isFloat32Text: the JSON build's text is what a float32 value prints as (shortest text that parses back
+// to that float32, or a fixed-precision rendering of it). Only then may the two builds agree "as the same
+// float32"; a float64 value must come back as the same float64.
+func isFloat32Text(s string, f float32) bool {
+	if b, err := json.Marshal(f); err == nil && string(b) == s {
+		return true
+	}
+	if p := zerolog.FloatingPointPrecision; p != -1 {
+		return strconv.FormatFloat(float64(f), 'f', p, 32) == s
+	}
+	return false
 }
